@@ -419,7 +419,14 @@ def corpus_doc(r, want=None):
         p = gen_program(r, budget=8, max_depth=2)
         return k, json.loads(Interp().run(p).to_json())
     if k == "extension":
-        return k, json.loads(build_extension(gen_extension(r, small=True)).to_json())
+        d_ = json.loads(build_extension(gen_extension(r, small=True)).to_json())
+        # every other extension document gives its first operation fixed lowerings (extension set + any JSON)
+        names_ = sorted(d_["operations"])
+        if names_ and r.random() < 0.5:
+            d_["operations"][names_[0]]["lower_funcs"] = [
+                {"extensions": ["a.ext", "b.ext"], "hugr": {"nodes": [], "edges": []}},
+                {"extensions": [], "hugr": None}][:r.randint(1, 2)]
+        return k, d_
     from hugr.package import Package
 
     mods = [Interp().run(gen_program(r, kind="module", budget=6, max_depth=2)) for _ in range(r.randint(0, 2))]
